@@ -17,6 +17,16 @@ def parseEv (s : String) : Option Ev :=
   | ["F"] => some Ev.flush
   | _ => none
 
+/-- the log with the notes of hook H4 (`X~cell`: cell discarded by `Solver::check_sol` after a certification
+    attempt) separated from the events of the replay -/
+def parseLog (s : String) : Option (List Ev × List Box) :=
+  if s == "-" then some ([], []) else do
+    let items ← (s.splitOn ",").mapM fun it =>
+      match it.splitOn "~" with
+      | ["X", b] => (parseBox b).map fun b => (none, some b)
+      | _ => (parseEv it).map fun e => (some e, none)
+    pure (items.filterMap (·.1), items.filterMap (·.2))
+
 def parsePaving (s : String) : Option Paving :=
   if s == "-" then some ⟨[], []⟩ else do
     let items ← (s.splitOn ",").mapM fun it =>
@@ -69,13 +79,13 @@ def parseItems (s : String) : Option (List Item) :=
       | ["D", b] => do let b ← parseBox b; pure ⟨"D", b, b, [], false⟩
       | _ => none
 
-/-- diagnosis only (no effect on acceptance): name the call site of a rejected step.  A cell of a system with
-    equations that left the buffer without children although it is not in the paving, while it cannot be bisected
-    any more (every component ≤ eps_min), went through `Solver::check_sol`: it was discarded after a
-    certification attempt (Newton existence box disjoint from the cell, or violating an inequality). -/
-def refineError (hasEqs : Bool) (eps : List Ext) (evs : List Ev) (pv : Paving)
+/-- diagnosis only (no effect on acceptance): name the call site of a rejected step.  A cell that left the buffer
+    without children although it is not in the paving, and that hook H4 reports as discarded by
+    `Solver::check_sol` after a certification attempt (Newton existence box disjoint from the cell, or violating
+    an inequality), is the recorded finding; any other dropped cell keeps the generic message. -/
+def refineError (notes : List Box) (evs : List Ev) (pv : Paving)
     (cert : Box → Box × Box × List Nat → Bool) (e : String) : String :=
-  if !(e.startsWith "cell dropped") || !hasEqs then e else
+  if !(e.startsWith "cell dropped") then e else
   -- the offending cell: the last pop before the first rejected prefix
   let k := (List.range (evs.length + 1)).find? fun k =>
     match (evs.take k).foldlM (Cover.step cert pv) Cover.St.init with
@@ -84,8 +94,8 @@ def refineError (hasEqs : Bool) (eps : List Ext) (evs : List Ev) (pv : Paving)
   let pre := match k with | some k => evs.take (k - 1) | none => evs
   let lastPop := pre.foldl (fun (acc : Option Box) ev => match ev with | .pop b => some b | _ => acc) none
   match lastPop with
-  | some b => if Cover.unknownSmall b eps then
-      "cell discarded after a certification attempt without uniqueness certificate (cell at minimal width)" else e
+  | some b => if notes.any (fun c => Cover.sameBox c b) then
+      "cell discarded after a certification attempt without uniqueness certificate (reported by check_sol)" else e
   | none => e
 
 def opsSolver (op : String) (ins outs : List String) : Option String :=
@@ -97,7 +107,7 @@ def opsSolver (op : String) (ins outs : List String) : Option String :=
     let eqs := ((List.zip ds ss).filter fun x => x.2 == "eq").map (·.1)
     let cert : Box → Box × Box × List Nat → Bool := fun c eu => Newton.replaceCert eqs c eu.1 eu.2.2
     let root ← parseBox root
-    let evs ← (if evs == "-" then some [] else (evs.splitOn ",").mapM parseEv)
+    let (evs, notes) ← parseLog evs
     -- the solver empties its buffer before pushing the root
     let evs := evs.dropWhile fun e => match e with | .flush => true | _ => false
     let pv ← parsePaving pv
@@ -112,7 +122,7 @@ def opsSolver (op : String) (ins outs : List String) : Option String :=
           match (evs.take k).foldlM (Cover.step cert pv) Cover.St.init with
           | .error _ => true
           | .ok _ => false
-        let e := refineError (!eqs.isEmpty) eps evs pv cert e
+        let e := refineError notes evs pv cert e
         pure ("FAIL " ++ e.replace " " "-" ++ s!" at-event={k}")
     | _ => pure "FAIL log-does-not-start-with-the-root"
   | "resumeload", [saved], [loaded] => do
@@ -127,7 +137,7 @@ def opsSolver (op : String) (ins outs : List String) : Option String :=
     let cert : Box → Box × Box × List Nat → Bool := fun c eu => Newton.replaceCert eqs c eu.1 eu.2.2
     let prev ← parseItems prev
     let new ← parseItems new
-    let evs ← (if evs == "-" then some [] else (evs.splitOn ",").mapM parseEv)
+    let (evs, notes) ← parseLog evs
     let evs := evs.dropWhile fun e => match e with | .flush => true | _ => false
     if Cover.stageOk cert prev new evs then
       let nv := (prev.filter (·.validated)).length
@@ -144,7 +154,7 @@ def opsSolver (op : String) (ins outs : List String) : Option String :=
       match Cover.check cert (Cover.pavingOf new) evs with
       | .ok _ => pure "FAIL stage-rejected"
       | .error e =>
-        let e := refineError (!eqs.isEmpty) eps evs (Cover.pavingOf new) cert e
+        let e := refineError notes evs (Cover.pavingOf new) cert e
         pure ("FAIL resumed-log-rejected:" ++ e.replace " " "-")
   | "solbox", [dags, specs, root, e, u, vars, pts], _ => do
     let ds ← (dags.splitOn "|").mapM parseProgram
@@ -177,7 +187,7 @@ def opsSolver (op : String) (ins outs : List String) : Option String :=
     let tagU := if uniq then "uniqueness-certified" else "uniqueness-uncertified"
     let tagE := if square && exKnown then "existence-by-known-zero" else "existence-uncertified"
     pure s!"ok solution {if square then "square" else "under-constrained"} {tagU} {tagE}"
-  | "solvept", [dags, specs, pt, pv, _], _ => do
+  | "solvept", [dags, specs, pt, pv, notes, _], _ => do
     let ds ← (dags.splitOn "|").mapM parseProgram
     let ss := specs.splitOn "|"
     if ds.length != ss.length then none else
@@ -190,7 +200,11 @@ def opsSolver (op : String) (ins outs : List String) : Option String :=
     if sats.any (· == none) then pure "ok undefined-or-unsupported"
     else if sats.all (· == some true) then
       let covered := pv.boxes.any fun b => !Box.isEmpty b && b.length == p.length && (List.zip p b).all fun q => ratIn q.1 q.2
-      pure (if covered then "ok solution-covered" else "FAIL solution-not-in-the-paving")
+      let discarded := notes != "-" && (notes.splitOn "|").any fun t =>
+        match parseBox t with | some c => Verdict.ratIn p c | none => false
+      pure (if covered then "ok solution-covered"
+            else if discarded then "FAIL solution-not-in-the-paving: it lies in a cell discarded by check_sol after a certification attempt".replace " " "-"
+            else "FAIL solution-not-in-the-paving")
     else pure "ok infeasible"
   | "solveinner", [dags, specs, box], _ => do
     let ds ← (dags.splitOn "|").mapM parseProgram
